@@ -19,10 +19,18 @@ class Raiser:
     def __init__(self, k):
         self.k, self.n = k, 0
 
+    exclusive = None          # path of a flag file: only the first PROCESS to reach call k raises (one chain of a multi-process run is interrupted, the others are not)
+
     def tick(self):
         n = self.n
         self.n += 1
         if self.k is not None and n == self.k:
+            if self.exclusive is not None:
+                import os
+                try:
+                    os.close(os.open(self.exclusive, os.O_CREAT | os.O_EXCL))
+                except FileExistsError:
+                    return
             self.flushes_at_raise = len(FLUSHES)
             raise KeyboardInterrupt
 
@@ -139,9 +147,10 @@ def real_interrupt_search(ctx):
                   adapters=[mici.adapters.DualAveragingStepSizeAdapter(0.8), mici.adapters.OnlineVarianceMetricAdapter()] if n_warm else None,
                   stager=mici.stagers.WindowedWarmUpStager(2, 1, 0, 2) if n_warm else None)
 
-        def run(k, path=None):
+        def run(k, path=None, exclusive=None):
             global _R
             _R = Raiser(k)
+            _R.exclusive = exclusive
             s = make(kind, seed)
             metric0 = s.system.metric
             del FLUSHES[:]
@@ -222,6 +231,27 @@ def real_interrupt_search(ctx):
                     ctx.fail("interrupt:prefix", f"interrupt at callback call #{k} ({kind}, chains={n_chain}, warm={n_warm}, main={n_main}, memmap={memmap}, "
                              f"n_process={n_process}): {probs[0]}", {"kind": kind, "n_chain": n_chain, "n_warm": n_warm, "n_main": n_main,
                                                                       "memmap": memmap, "n_process": n_process, "seed": seed, "k": k, "problems": probs[:4]})
+        # multi-process, multi-stage: only ONE worker is interrupted at call k (the other chains go on): still a normal return, consistent per-chain prefixes
+        if n_process > 1 and n_warm:
+            for k in range(0, per_chain + 1, 2 if not ctx.thorough else 1):
+                with tempfile.TemporaryDirectory(dir="/verif/build") as td:
+                    try:
+                        out, _ = run(k, td if memmap else None, exclusive=str(Path(td) / "first.flag"))
+                    except BaseException as e:  # noqa: BLE001
+                        bad += 1
+                        ctx.fail("interrupt:one_worker:escapes", f"{type(e).__name__} escaped sample_chains when ONE worker's callback call #{k} raised KeyboardInterrupt "
+                                 f"({kind}, chains={n_chain}, warm={n_warm}, main={n_main}, n_process={n_process}): {e}", {"kind": kind, "seed": seed, "k": k})
+                        continue
+                    ctx.case(("real-intr-one", kind, n_chain, n_warm, n_main, k))
+                    ctx.count("search:interrupt:parallel_one_worker")
+                    for c in range(n_chain):
+                        tr = np.asarray(out.traces["pos"][c])
+                        written = ~np.isnan(tr).any(axis=1)
+                        if not np.all(written[:int(written.sum())]):
+                            bad += 1
+                            ctx.fail("interrupt:prefix", f"one worker interrupted at callback call #{k}: chain {c} has rows {np.nonzero(written)[0].tolist()} written but an earlier row is not",
+                                     {"kind": kind, "seed": seed, "k": k})
+                            break
     _R = Raiser(None)
     ctx.oblige(f"search: real HMC runs interrupted inside density / gradient / trace callbacks ({len(configs)} configurations x call indices)",
                bad == 0, f"{bad} failures")
